@@ -1,0 +1,25 @@
+//go:build verif
+
+package names
+
+// Verification hooks for property C02 (see /verif). Not compiled without the "verif" build tag.
+
+// VerifNamedCurves returns the curve alias table in the order the code searches it.
+func VerifNamedCurves() [][]string {
+	var out [][]string
+	for _, c := range namedCurves {
+		out = append(out, append([]string{}, c...))
+	}
+	return out
+}
+
+// VerifNamedCurvesByOid returns the dotted-OID -> display name table.
+func VerifNamedCurvesByOid() map[string]string {
+	out := map[string]string{}
+	for k, v := range namedCurvesByOid {
+		out[k] = v
+	}
+	return out
+}
+
+const VerifCurveUnknown = curveUnknown
